@@ -115,10 +115,11 @@ class StringSerializableRegistry:
         flag = True
         while flag:
             flag = False
-            filtered: Set[T_StringSerializable] = set()
+            # Only replaced types are dropped, unrelated types have to stay
+            filtered: Set[T_StringSerializable] = set(types)
             for t1, t2 in permutations(types, 2):
-                if (t1, t2) in self.replaces:
-                    filtered.add(t2)
+                if (t1, t2) in self.replaces and t1 in filtered and t2 in filtered:
+                    filtered.remove(t1)
                     flag = True
             if flag:
                 types = filtered
